@@ -17,8 +17,10 @@ def uf_native(which):
 
 def C05():
     from units import uf
+    from units import gen
     parts = [ProofPart(uf, 'UF(eqlog-runtime)', {'which': 0}, native=uf_native(0)),
-             ProofPart(uf, 'UF(eqlog)', {'which': 1}, native=uf_native(1))]
+             ProofPart(uf, 'UF(eqlog)', {'which': 1}, native=uf_native(1)),
+             ProofPart(gen, 'GEN')]
     return {
         'level': 'proof', 'parts': parts,
         'samples': uf.SAMPLES,
@@ -78,6 +80,14 @@ def C08():
             'iter, iter_restrictions(_mut), mapped are covered by the bounded native sweep only',
             'get_mut hands out a subtree that the caller may empty (the source says so); no wf guarantee after writing through it',
         ],
+    }
+
+
+def C04():
+    from units import gen
+    return {
+        'level': 'proof', 'parts': [ProofPart(gen, 'GEN')], 'samples': gen.SAMPLES,
+        'assumptions': gen.ASSUMPTIONS,
     }
 
 
@@ -150,7 +160,7 @@ def C18():
     }
 
 
-PROPERTIES = {'C05': C05, 'C14': C14, 'C08': C08, 'C16': C16, 'C18': C18, 'C11': C11}
+PROPERTIES = {'C04': C04, 'C05': C05, 'C14': C14, 'C08': C08, 'C16': C16, 'C18': C18, 'C11': C11}
 
 NATIVES = {'uf_0': lambda: uf_native(0), 'uf_1': lambda: uf_native(1), 'rt_wb': lambda: rt_native('wb'), 'rt_pt': lambda: rt_native('pt'), 'rt_ts': lambda: rt_native('ts'), 'sn': sn_native, 'sd': sd_native}
 
